@@ -6,6 +6,18 @@ from .core import digest_of, HarnessError
 from .model import E1Model, ModelRefuse, Unknown, any_close, BUFFERING
 from .world import World, tick, SimComp, SimPull, SimSink
 from .gen import update_budget, chain_flags
+from .findings import consumers_of, upstream_pull_comps
+from .model import F
+
+
+def _up_kinds(sc, ci, depth=0):
+    kinds = set()
+    for l in sc["links"]:
+        if l.get("dst") and l["dst"][0] == ci:
+            kinds |= {a["kind"] for a in l["chain"]}
+            if sc["components"][l["src"][0]]["kind"] == "pull" and depth < 5:
+                kinds |= _up_kinds(sc, l["src"][0], depth + 1)
+    return kinds
 
 from finam import ComponentStatus
 
@@ -160,8 +172,6 @@ def run_e1(sc, scratch=None, value_check=True):
     # online value check ------------------------------------------------------
     def check_value(ci, ii, k, t, val, initial=False):
         series.setdefault((ci, ii), []).append((k, t, val))
-        if not value_check:
-            return
         if sc["components"][ci]["kind"] == "pull" and not initial:
             return      # evaluated as part of the downstream consumer's expectation
         try:
@@ -170,13 +180,17 @@ def run_e1(sc, scratch=None, value_check=True):
             probe("value_unspecified")
             return
         except ModelRefuse as e:
-            v("model-series-differs", "refuse",
+            if not value_check:
+                return
+            v("model-series-differs", "refuse", comp=sc["components"][ci]["name"], msg=
               f"{sc['components'][ci]['name']}.i{ii} pull at {t} delivered {val} but the ideal link refuses ({e})")
             return
         if len(alts) > 1:
             probe("tie_midpoint")
+        if not value_check:
+            return          # the model was still fed (its request histories must stay in step)
         if not isinstance(val, float) or not any_close(val, alts):
-            v("model-series-differs", "value",
+            v("model-series-differs", "value", comp=sc["components"][ci]["name"], msg=
               f"{sc['components'][ci]['name']}.i{ii} pull #{k} at {t}: got {val}, ideal link gives {alts}")
 
     # patch pull recording of stubs: compare online, in actual request order
@@ -277,8 +291,42 @@ def run_e1(sc, scratch=None, value_check=True):
             if e[2] is not None and e[1] in last and not e[2] > last[e[1]]:
                 v("time-not-increasing", "c03", f"{e[1]}: time {last[e[1]]} -> {e[2]}")
 
+    # context for the recorded finding "shared pull-based component merges request streams":
+    # it only applies when the merged stream really was non-monotone / carried duplicates
+    prov = {}
+    for e in rec.events:
+        if e[0] == "PROVIDER":
+            prov.setdefault(e[1], []).append(e[3])
+    shared_ctx = {}
+    for pname, ts in prov.items():
+        pi = cidx[pname]
+        if len(consumers_of(sc, pi)) < 2:
+            continue
+        nonmono = any(F(b) < F(a) for a, b in zip(ts, ts[1:]))
+        dup = len(set(ts)) < len(ts)
+        stateful_up = bool(_up_kinds(sc, pi) & {"avg", "sum", "delay_pull"})
+        shared_ctx[pname] = "nonmono" if nonmono else ("dup-stateful" if dup and stateful_up else "clean")
+    for x in viol:
+        if x.get("comp") in cidx:
+            ups = upstream_pull_comps(sc, cidx[x["comp"]])
+            st = [shared_ctx.get(sc["components"][p]["name"]) for p in ups]
+            x["shared_ctx"] = "nonmono" if "nonmono" in st else ("dup-stateful" if "dup-stateful" in st else "clean")
+
     log = [e for e in rec.events if e[0] in ("UPDATE_ENTER", "PUSH", "GET", "PROVIDER", "LIFECYCLE", "UPDATE_RAISE")]
+    infos = {}
+    for ci, comp in enumerate(comps):
+        for n, inp in comp.inputs.items():
+            inf = inp.info
+            if inf is not None:
+                infos[f"{comp.name}.{n}"] = [str(inf.units), tick(inf.time) if inf.time is not None else None,
+                                             repr(inf.grid), str(inf.mask)]
+        for n, out in comp.outputs.items():
+            inf = getattr(out, "_output_info", None)
+            if inf is not None:
+                infos[f"{comp.name}.{n}"] = [str(inf.units), tick(inf.time) if inf.time is not None else None,
+                                             repr(inf.grid), str(inf.mask)]
     obs = {
+        "infos": infos,
         "status": status, "exc": ename, "exc_msg": str(exc)[:400] if exc is not None else None,
         "final_times": {sc["components"][i]["name"]: tick(comps[i].time) for i in sims},
         "series": {f"{sc['components'][ci]['name']}.i{ii}": s for (ci, ii), s in sorted(series.items())},
